@@ -147,7 +147,7 @@ def run_project(case, h, cldr):
         p = subprocess.run(["cargo", "run", "--quiet"], cwd=replay.CRATE, env=env, capture_output=True, text=True, timeout=1800)
         if p.returncode != 0:
             raise replay.ReplayError("replay crate failed: %s" % p.stderr[-2500:])
-        for l in p.stdout.splitlines():
+        for l in p.stdout.split("\n"):
             parts = l.split("\t")
             if len(parts) == 3:
                 outs.setdefault(int(parts[0]), {})[order] = (bytes.fromhex(parts[1]).decode(), bytes.fromhex(parts[2]).decode())
